@@ -468,14 +468,111 @@ func cases(thorough bool) []fcase {
 	return out
 }
 
+// ---- a library handler that panics: the channel holder refusing a duplicate channel id ----
+
+type dupObs struct {
+	envs     [2]*hlib.Env
+	cons     [2]*hlib.Consumer
+	inact    [2]int
+	follow   [2]error
+	closed1  bool
+	closeAll bool
+}
+
+type inactCounter struct {
+	o *dupObs
+	i int
+}
+
+func (c inactCounter) HandleInactive(ctx netty.InactiveContext, ex netty.Exception) {
+	c.o.inact[c.i]++
+	ctx.HandleInactive(ex)
+}
+
+func dupScenario(cfg hlib.ChanCfg, consume bool) *explore.Scenario {
+	return &explore.Scenario{
+		Name:  fmt.Sprintf("%s/holder refuses a duplicate channel id/exception consumed=%v", cfg, consume),
+		Bound: 1,
+		Cache: true,
+		Cfg:   vsched.Config{MaxSteps: 8000},
+		Init:  func() any { return &dupObs{} },
+		Body: func(v any) {
+			o := v.(*dupObs)
+			holder := netty.NewChannelHolder(4)
+			for i := 0; i < 2; i++ {
+				e := &hlib.Env{T: mock.NewTransport(fmt.Sprintf("t%d", i+1))}
+				o.envs[i] = e
+				e.PL = netty.NewPipeline()
+				e.PL.AddLast(holder, inactCounter{o, i})
+				if consume {
+					o.cons[i] = &hlib.Consumer{}
+					e.PL.AddLast(o.cons[i])
+				} else {
+					e.PL.AddLast(&hlib.Reader{})
+				}
+				e.Ch = cfg.Factory()(7, context.Background(), e.PL, e.T, netty.AsyncExecutor()) // the same id twice
+				e.PL.ServeChannel(e.Ch)
+			}
+			var ths []*vsched.Thread
+			for i := 0; i < 2; i++ {
+				i := i
+				ths = append(ths, vsched.Go(fmt.Sprintf("user%d", i+1), func() {
+					_, o.follow[i] = o.envs[i].Ch.Write1(mock.Payload(i+1, 3))
+				}))
+			}
+			for _, t := range ths {
+				vsched.Join(t)
+			}
+			o.envs[0].Ch.Close(errPre)
+			o.closed1 = true
+			holder.CloseAll(errCloser)
+			o.closeAll = true
+		},
+		Outcome: func(x *vsched.Exec, v any) string {
+			o := v.(*dupObs)
+			return fmt.Sprint(o.envs[0].T.LogString(), " | ", o.envs[1].T.LogString(), " | ", o.inact, o.follow)
+		},
+		Check: func(x *vsched.Exec, v any) []explore.Finding {
+			o := v.(*dupObs)
+			var fs []explore.Finding
+			add := func(k, m string) { fs = append(fs, explore.Finding{Key: "holder-duplicate-id/" + k, Msg: m}) }
+			if o.envs[1] == nil || o.envs[1].Ch == nil {
+				add("serve-never-returned", "serving the second channel did not finish")
+				return fs
+			}
+			ctxs := fmt.Sprintf(" transports: %s | %s; inactive counts %v; follow-up writes %v", o.envs[0].T.LogString(), o.envs[1].T.LogString(), o.inact, o.follow)
+			if !o.closed1 || !o.closeAll {
+				add("close-blocked", "Close / CloseAll did not return after the holder had refused a channel;"+ctxs)
+			}
+			if consume {
+				if n := len(o.cons[1].Seen); n != 1 {
+					add("exception-count", fmt.Sprintf("the refused channel's exception handler saw %d exceptions;%s", n, ctxs))
+				}
+				if o.follow[1] != nil {
+					add("not-usable", fmt.Sprintf("the exception was consumed but the channel is not usable afterwards: %v;%s", o.follow[1], ctxs))
+				}
+			} else if o.envs[1].T.Closes != 1 || o.inact[1] != 1 {
+				add("not-closed", fmt.Sprintf("nobody consumed the exception but the refused channel was not closed exactly once (transport closes %d, inactive %d);%s", o.envs[1].T.Closes, o.inact[1], ctxs))
+			}
+			if o.follow[0] != nil {
+				add("first-channel-broken", fmt.Sprintf("the first channel's write failed: %v;%s", o.follow[0], ctxs))
+			}
+			if o.envs[0].T.Closes != 1 || o.inact[0] != 1 {
+				add("first-channel-not-closed", "Close of the first channel did not close it exactly once;"+ctxs)
+			}
+			return fs
+		},
+	}
+}
+
 func main() {
 	explore.Main(explore.Spec{
 		Property: "C07",
-		Rule:     "every injection point: exception-handling shape {none, all forward, swallow at position 0/1/2} x panicking handler position {0,1,2} x event/entry {active and read via the read loop; write via Channel.Write and ctx.Write; user event via Channel.Trigger, ctx.Trigger and the read-idle timer callback (virtual time)} x panic value {error, string, runtime error from a nil-map write, timeout net.Error, non-timeout net.Error} x channel state {open, closing on another goroutine, closed} on sync and aq(2,B); plus transport Write/Writev/Flush/Read failing at call 1..3 with plain / timeout / non-timeout errors, and connections whose writes keep failing from call 1/2 on with more packets queued than one sender batch (aq(2,B), aq(4,B), 6 writes). Each case is a closed driver explored over all interleavings up to 1 (closing: 2) preemptions. Oracle: no panic escapes into the caller, no framework goroutine dies, no deadlock; on an open channel the exception visits the exception handlers head->tail exactly once up to the first consumer with the identical value (equal text for non-errors); unconsumed (or failed background write) => exactly one inactive carrying that value and one transport Close; consumed and not a non-timeout net.Error => the channel stays usable (follow-up write succeeds). distinct = distinct (handler visit log, transport log, follow-up) observations",
+		Rule:     "every injection point: exception-handling shape {none, all forward, swallow at position 0/1/2} x panicking handler position {0,1,2} x event/entry {active and read via the read loop; write via Channel.Write and ctx.Write; user event via Channel.Trigger, ctx.Trigger and the read-idle timer callback (virtual time)} x panic value {error, string, runtime error from a nil-map write, timeout net.Error, non-timeout net.Error} x channel state {open, closing on another goroutine, closed} on sync and aq(2,B); plus transport Write/Writev/Flush/Read failing at call 1..3 with plain / timeout / non-timeout errors, and connections whose writes keep failing from call 1/2 on with more packets queued than one sender batch (aq(2,B), aq(4,B), 6 writes); a library handler that panics: two channels with the same id on one channel holder, exception consumed or not, then writes, Close and CloseAll. Each case is a closed driver explored over all interleavings up to 1 (closing: 2) preemptions. Oracle: no panic escapes into the caller, no framework goroutine dies, no deadlock; on an open channel the exception visits the exception handlers head->tail exactly once up to the first consumer with the identical value (equal text for non-errors); unconsumed (or failed background write) => exactly one inactive carrying that value and one transport Close; consumed and not a non-timeout net.Error => the channel stays usable (follow-up write succeeds). distinct = distinct (handler visit log, transport log, follow-up) observations",
 		Assume:   []string{"exception handlers themselves do not panic", "for a consumed non-timeout network error either outcome (closed or open) is accepted"},
 		Build: func(tier string) []*explore.Scenario {
 			th := tier == "thorough"
-			return []*explore.Scenario{{
+			return []*explore.Scenario{dupScenario(hlib.ChanCfg{}, false), dupScenario(hlib.ChanCfg{}, true), dupScenario(hlib.ChanCfg{Q: 2, Until: true}, false), dupScenario(hlib.ChanCfg{Q: 2, Until: true}, true), {
 				Name:   "fault-injection matrix",
 				Shards: 16,
 				Bound:  map[bool]int{false: 1, true: 2}[th],
